@@ -457,7 +457,7 @@ impl Property for C18 {
         ]
     }
     fn cases(tier: Tier) -> u64 {
-        tier.pick(6_000, 100_000)
+        tier.pick(24_000, 100_000)
     }
     fn strategy(_tier: Tier) -> BoxedStrategy<Spec> {
         let entry = prop_oneof![
